@@ -455,6 +455,12 @@ static void finish(const char *res, snap_t *snap, int nsnap)
                 fputc('-', g_out);
         } else
             fprintf(g_out, " sm none");
+        /* the id of the current stream (what the component handshake is computed from) */
+        {
+            char sid[300];
+            hexs(g_conn->stream_id, sid, sizeof(sid));
+            fprintf(g_out, " sid %s", sid);
+        }
         fputc('\n', g_out);
     } else
         fprintf(g_out, " | st - neg 0 sec 0 q 0\n");
